@@ -123,7 +123,8 @@ func (tqs *TaskQueueSet) Iterate(doFn func(queue *TaskQueue)) {
 		return
 	}
 
-	main := tqs.GetMain()
+	// tqs.m is already read-locked: GetMain would lock it again and deadlock with a waiting writer.
+	main := tqs.Queues[tqs.MainName]
 	if main != nil {
 		doFn(main)
 	}
